@@ -718,6 +718,11 @@ pub fn explore_scheme<S: Sch>(tier: Tier, rep: &mut Report) -> Vec<Node<S>> {
             let ci = core_inits();
             let r2 = clone_roots(Some(&ci), rep);
             out.extend(bfs::<S>(r2, &core, &Explore { depth: 2, faults: true, max_states: 400_000, label: "core".into(), keep_all: false }, rep));
+            // longer histories over the mini alphabet on the cheapest scheme (ed25519 signs in 20 us)
+            if S::NAME == "ed" {
+                let r3 = clone_roots(Some(&["minimal", "pad299@seq127"]), rep);
+                out.extend(bfs::<S>(r3, &mini, &Explore { depth: 4, faults: false, max_states: 400_000, label: "mini".into(), keep_all: false }, rep));
+            }
         }
         Tier::Thorough => {
             // full alphabet to depth 2 on one scheme per signature family (and the CombinedKey/ed25519
